@@ -611,6 +611,47 @@ def search_finders(ctx):
         check_finder_mesh(ctx, skfem.MeshQuad(p, m.t), 'convex-quads', rng, pk, stats)
     for _ in range(ctx.n(4, 12)):
         check_finder_mesh(ctx, line_mesh(rng, rng.randrange(3, 9)), 'line', rng, max(4, pk // 2), stats)
+    # general hexahedra (non-planar faces) and prisms with moved nodes: no exact containment formula; points are images
+    # F_c(xi) of reference points well inside the cell (margin 1/4), the finder must return c
+    nonplanar = {'points': 0, 'other_cell': 0}
+    for kind in ('hex', 'wedge', 'quad'):
+        for _ in range(ctx.n(2, 8)):
+            m0 = tensor_mesh(rng, kind, shear=False)
+            p = m0.p * 8.0
+            inner = np.setdiff1d(np.arange(p.shape[1]), m0.boundary_nodes())
+            if len(inner):
+                p[:, inner] += np.array([[rng.randrange(-2, 3) for _ in inner] for _ in range(p.shape[0])], dtype=float)
+            m = type(m0)(p, m0.t)
+            mp = m._mapping()
+            d = p.shape[0]
+            for _ in range(ctx.n(12, 40)):
+                # generic reference points (not on any plane with small integer coefficients, so not on a facet of the split)
+                vals = rng.sample([0.29, 0.43, 0.61, 0.37, 0.53], d)
+                xi = np.array([[vals[i] * (0.5 if kind == 'wedge' and i < 2 else 1.0)] for i in range(d)])
+                c = rng.randrange(m.t.shape[1])
+                x = mp.F(xi, tind=np.array([c]))[:, 0, :]
+                r = run_finder(m, [tuple(Fr(float(v)) for v in x[:, 0])])
+                nonplanar['points'] += 1
+                ctx.count(('nonplanar', kind, c, xi.tobytes(), p.tobytes()), nontrivial=True)
+                ok_ = r[0] == 'ok' and r[1][0] == c
+                if not ok_:
+                    # a neighbour is acceptable only if the point really is in it too (pull it back there)
+                    good = False
+                    if r[0] == 'ok' and 0 <= r[1][0] < m.t.shape[1]:
+                        try:
+                            X = mp.invF(x[:, :, None], tind=np.array([r[1][0]]))[:, 0, 0]
+                            lo, hi = -1e-9, 1 + 1e-9
+                            good = bool(np.all(X >= lo) and (np.all(X <= hi) if kind != 'wedge' else (X[0] + X[1] <= hi and X[2] <= hi)))
+                        except Exception:       # Newton failure: the point is not in that cell
+                            good = False
+                    if good:
+                        nonplanar['other_cell'] += 1
+                    else:
+                        ctx.fail(f'finder:{type(m).__name__}:general-cell:wrong-or-raises',
+                                 f'point F_c(xi) with xi well inside cell {c} is located as {r[1]}',
+                                 {'mesh_class': type(m).__name__, 'p': m.p.tolist(), 't': m.t.tolist(), 'cell': c, 'xi': xi.ravel().tolist(),
+                                  'point': [str(Fr(float(v))) for v in x[:, 0]], 'result': r[1], 'site': 'finder-general'})
+    stats['general_cells'] = nonplanar
     ctx.extra['finder_search'] = stats
 
 
